@@ -510,10 +510,10 @@ enum Role {
 }
 
 fn random_case(rng: &mut Rng) -> Case {
-    let ill = rng.chance(1, 6); // ill-kinded / odd-object stream
+    let ill = rng.chance(1, 7); // ill-kinded / odd-object stream
     let ncommit = rng.range(1, 3) as usize;
     let big = rng.chance(1, 5);
-    let ntree = rng.range(1, if big { 10 } else { 5 }) as usize;
+    let ntree = rng.range(2, if big { 12 } else { 6 }) as usize;
     let nblob = rng.range(0, 6) as usize;
     let mut roles: Vec<(Id, Role)> = Vec::new();
     for i in 0..ncommit {
@@ -526,21 +526,35 @@ fn random_case(rng: &mut Rng) -> Case {
         roles.push((pid(32 + i as u8), Role::Blob));
     }
     let trees: Vec<Id> = roles.iter().filter(|r| r.1 == Role::Tree).map(|r| r.0.clone()).collect();
-    let p_del = *rng.pick(&[0u64, 1, 1, 3, 3, 6]);
-    let max_entries = *rng.pick(&[2i64, 4, 4, 7]);
+    let p_del = *rng.pick(&[0u64, 1, 1, 2, 3, 5]);
+    let max_entries = *rng.pick(&[3i64, 5, 5, 8]);
     let mut items: Vec<Vec<u8>> = Vec::new();
     for (id, role) in &roles {
         match role {
             Role::Commit => {
-                let t = if rng.chance(1, 12) { pid(90) } else { rng.pick(&trees).clone() };
+                // mostly one of the first two trees, which are rarely deleted: the walk gets somewhere
+                let t = if rng.chance(1, 20) {
+                    pid(90)
+                } else if rng.chance(3, 4) {
+                    trees[rng.below(2) as usize].clone()
+                } else {
+                    rng.pick(&trees).clone()
+                };
                 let t = if ill && rng.chance(1, 4) { rng.pick(&roles).0.clone() } else { t };
                 items.push(f_commit(id, &t));
             }
             Role::Tree => {
-                if rng.chance(p_del, 10) {
+                let root = *id == trees[0] || *id == trees[1];
+                if rng.chance(p_del, if root { 50 } else { 10 }) {
                     continue; // deleted
                 }
-                let n = rng.range(0, max_entries) as usize;
+                let n = if root {
+                    rng.range(2, max_entries) as usize
+                } else if rng.chance(1, 8) {
+                    0
+                } else {
+                    rng.range(1, max_entries) as usize
+                };
                 let mut es = Vec::new();
                 for _ in 0..n {
                     let (tid, trole) = if rng.chance(1, 10) {
